@@ -55,7 +55,7 @@ def main():
         ],
         "checks": checks,
         "not_applicable": [{"property_id": p, "reason": NOT_YET} for p in ALL if p not in CHECKS],
-        "notes": "All checks: exit 0 = held (KNOWN-FINDING lines possible), exit 1 = VIOLATION line, exit 2 = machinery failure. Genuine defects repaired in /repo by 'fix:' commits are listed as fixed in /verif/known_findings.json; the only open finding is C20-insert-chars. All 20 listed properties are claimed and decided by the TLA+ specification (not_applicable is empty). Beyond them the specification covers 18 further subsystems of the library (extras X01-X18: ./check XNN, evidence/XNN.json, DESIGN.md 10.8; their findings are reported as 'KNOWN-FINDING: extra=XNN ...' and are not registered as property checks). spec/INDEX.md indexes the 145 modules. seeded/ holds the seeded changes of seven rounds written by fresh sub-agents (harness/seeded.py) and seeded/benign/ 60 property-preserving changes for the false-alarm test (harness/benign.py); harness/selftest.py runs the source mutants of harness/mutants/.",
+        "notes": "All checks: exit 0 = held (KNOWN-FINDING lines possible), exit 1 = VIOLATION line, exit 2 = machinery failure. Genuine defects repaired in /repo by 'fix:' commits are listed as fixed in /verif/known_findings.json; the only open finding is C20-insert-chars. All 20 listed properties are claimed and decided by the TLA+ specification (not_applicable is empty). Beyond them the specification covers 18 further subsystems of the library (extras X01-X18: ./check XNN, evidence/XNN.json, DESIGN.md 10.8; their findings are reported as 'KNOWN-FINDING: extra=XNN ...' and are not registered as property checks). spec/INDEX.md indexes the 146 modules. seeded/ holds the seeded changes of seven rounds written by fresh sub-agents (harness/seeded.py) and seeded/benign/ 60 property-preserving changes for the false-alarm test (harness/benign.py); harness/selftest.py runs the source mutants of harness/mutants/.",
     }
     with open(os.path.join(VERIF, "MANIFEST.json"), "w") as f:
         json.dump(m, f, indent=1)
